@@ -20,6 +20,7 @@ def run(ctx, rep):
         },
     )
     compiler_rules.rule_traversal_completeness(ctx, rep, "C05-R4")
+    compiler_rules.rule_filtered_walks_complete(ctx, rep, "C05-R4b")
     compiler_rules.rule_lowering_exhaustive(ctx, rep, "C05-R6")
     compiler_rules.rule_variable_resolution(ctx, rep, "C05-R9")
     hashorder.rule_frame_positions(ctx, rep, "C05-R10")
